@@ -885,3 +885,38 @@ def rule_bitmap_accumulation(ctx, P, r):
                 else:
                     r.fail(inst, func=name, sig='bitmap overwritten in a loop instead of accumulated', loc=h.insts[-1].loc,
                            msg='each iteration overwrites the bitmap with the bit of the current list element: after the loop only the last element is set')
+
+
+# ---------------------------------------------------------------- R15f erasure list is an input
+def rule_missing_list_readonly(ctx, P, r):
+    """the erasure list handed to a backend's decode / reconstruct operation is read again by the front end afterwards (to stamp
+    headers on the rebuilt fragments, to find the destination): no operation may write through it, directly or in a callee"""
+    from .. import effects
+    E = effects.get(P)
+    cg = callgraph.get(P)
+    seen = set()
+    for be in IN_SCOPE_BACKENDS + ('@backend_isa_l_rs_vand',):
+        c = cg.common.get(be)
+        if c is None:
+            continue
+        t = cg.op_tables[c['ops']]
+        for slot in ('decode', 'reconstruct'):
+            fname = t.get(slot)
+            if not fname or fname in seen or fname not in P.fns:
+                continue
+            seen.add(fname)
+            f = P.fns[fname]
+            pis = [i for i, (ty, n) in enumerate(f.params) if ty == 'i32*']
+            if not pis:
+                continue
+            pi = pis[0]
+            wit = E.writes_through(fname, pi, deep=True)
+            wit = [w for w in wit if 'unknown external' not in w[2]]
+            inst = f'{fname}: the missing-index list (parameter {pi}) is not written'
+            if wit:
+                w = wit[0]
+                r.fail(inst, func=fname, sig=f'missing list written in {w[0]}', loc=w[1] or f.mod.src,
+                       msg=f'{fname} can write through its missing-index list ({w[0]}: {w[2]}): the front end walks that list after the call to stamp the '
+                           'rebuilt fragments, so clobbered entries leave rebuilt fragments without a header')
+            else:
+                r.ok(inst, func=fname, loc=f.mod.src)
